@@ -590,6 +590,37 @@ package protocol
 //@   ensures h.disableNormalizing == old(h.disableNormalizing)
 //@   ensures h.contentLength == old(h.contentLength)
 
+// C08 (Content-Range line): the value is assembled as "bytes " start "-" end "/" length - each piece appended to
+// the result of the previous step (cursor cr*), the three numbers in that order - and that value is what is set
+// under the Content-Range name. Typestate over the append/AppendUint events; what AppendUint writes is its own contract.
+//@ ghost var crStep int
+//@ ghost var crArr int
+//@ ghost var crOff int
+//@ ghost var crLen int
+//@ macro crIs(s) = arr(s) == crArr && off(s) == crOff && len(s) == crLen
+//@ func ResponseHeader.SetContentRange(h, startPos, endPos, contentLength)
+//@   props C08
+//@   abstract
+//@   noinline
+//@   modifies crStep, crArr, crOff, crLen
+//@   ghostset-at-entry crStep = 0
+//@   assert before append#0: crStep == 0 && len(arg0) == 0 && len(arg1) == 5 && arg1[0] == 'b' && arg1[1] == 'y' && arg1[2] == 't' && arg1[3] == 'e' && arg1[4] == 's'
+//@   assert before append#1: crStep == 1 && crIs(arg0) && len(arg1) == 1 && arg1[0] == ' '
+//@   assert before AppendUint#0: crStep == 2 && crIs(arg0) && arg1 == startPos
+//@   assert before append#2: crStep == 3 && crIs(arg0) && len(arg1) == 1 && arg1[0] == '-'
+//@   assert before AppendUint#1: crStep == 4 && crIs(arg0) && arg1 == endPos
+//@   assert before append#3: crStep == 5 && crIs(arg0) && len(arg1) == 1 && arg1[0] == '/'
+//@   assert before AppendUint#2: crStep == 6 && crIs(arg0) && arg1 == contentLength
+//@   ghostset after append: crStep = crStep + 1
+//@   ghostset after append: crArr = arr(result)
+//@   ghostset after append: crOff = off(result)
+//@   ghostset after append: crLen = len(result)
+//@   ghostset after AppendUint: crStep = crStep + 1
+//@   ghostset after AppendUint: crArr = arr(result)
+//@   ghostset after AppendUint: crOff = off(result)
+//@   ghostset after AppendUint: crLen = len(result)
+//@   assert before ResponseHeader.SetCanonical: crStep == 7 && crIs(arg2) && len(arg1) == 13 && arg1[0] == 'C' && arg1[8] == 'R' && arg1[12] == 'e'
+
 // URI.parse: panic-free for every host/uri; the path buffer and the original-path buffer stay separate arrays
 // (normalizePath's precondition), which parse itself preserves.
 //@ func URI.parse(u, host, uri, isTLS)
